@@ -78,6 +78,11 @@ func (fr *Frame) resolveIdent(name string, env *Env) Val {
 		return v
 	}
 	switch name {
+	case "$cost":
+		if env.inOld || env.cur == nil || env.cur.cost == "" {
+			return intVal("0")
+		}
+		return intVal(env.cur.cost)
 	case "result", "result0":
 		if len(env.results) > 0 {
 			return env.results[0]
@@ -554,6 +559,33 @@ func (fr *Frame) evalCall(x *ECall, env *Env) Val {
 		if env.qdepth == 0 {
 			q := c.fresh("qf")
 			c.assumeOnce("(=> (<= " + lo + " " + hi + ") (and (<= " + lo + " " + r + ") (<= " + r + " " + hi + ") (forall ((" + q + " Int)) (=> (and (<= " + lo + " " + q + ") (< " + q + " " + r + ")) (not (= (select " + a + " " + q + ") " + d + ")))) (=> (< " + r + " " + hi + ") (= (select " + a + " " + r + ") " + d + "))))")
+		}
+		return intVal(r)
+	case "firstNeAbs":
+		// firstNeAbs(a, lo, hi, d): the least absolute index r in [lo,hi) with a[r] != d, or hi.
+		a, lo, hi, d := arg(0).C[0], arg(1).C[0], arg(2).C[0], arg(3).C[0]
+		if !c.ufuns["FIRSTNEABS"] {
+			c.ufuns["FIRSTNEABS"] = true
+			c.emit("(declare-fun FIRSTNEABS ((Array Int Int) Int Int Int) Int)")
+		}
+		r := "(FIRSTNEABS " + a + " " + lo + " " + hi + " " + d + ")"
+		if env.qdepth == 0 {
+			q := c.fresh("qf")
+			c.assumeOnce("(=> (<= " + lo + " " + hi + ") (and (<= " + lo + " " + r + ") (<= " + r + " " + hi + ") (forall ((" + q + " Int)) (=> (and (<= " + lo + " " + q + ") (< " + q + " " + r + ")) (= (select " + a + " " + q + ") " + d + "))) (=> (< " + r + " " + hi + ") (not (= (select " + a + " " + r + ") " + d + ")))))")
+		}
+		return intVal(r)
+	case "lastNeAbs":
+		// lastNeAbs(a, lo, hi, d): the greatest absolute index r in [lo,hi) with a[r] != d, or lo-1.
+		// Introduced by its characterisation, instantiated at each use (such an r exists when lo<=hi).
+		a, lo, hi, d := arg(0).C[0], arg(1).C[0], arg(2).C[0], arg(3).C[0]
+		if !c.ufuns["LASTNEABS"] {
+			c.ufuns["LASTNEABS"] = true
+			c.emit("(declare-fun LASTNEABS ((Array Int Int) Int Int Int) Int)")
+		}
+		r := "(LASTNEABS " + a + " " + lo + " " + hi + " " + d + ")"
+		if env.qdepth == 0 {
+			q := c.fresh("qf")
+			c.assumeOnce("(=> (<= " + lo + " " + hi + ") (and (<= (- " + lo + " 1) " + r + ") (< " + r + " " + hi + ") (=> (<= " + lo + " " + r + ") (not (= (select " + a + " " + r + ") " + d + "))) (forall ((" + q + " Int)) (=> (and (< " + r + " " + q + ") (< " + q + " " + hi + ")) (= (select " + a + " " + q + ") " + d + ")))))")
 		}
 		return intVal(r)
 	case "memberOf":
